@@ -8,6 +8,7 @@ if ctx.replay:
     _core_check.replay(ctx); sys.exit(0)
 vlib.proof_phase(ctx)
 _core_check.source_pub(ctx)
+_core_check.source_tab(ctx)      # "assigning next" runs in every update (Properties_tab_source: C03_source_next)
 res = coresuite.history_suite(ctx.tier, ctx.seed)
 cov = coresuite.summarize_groups(ctx, res, 'updates of load/unload histories')
 vlib.finish(ctx, cov, assumptions=['harness H1 keeps one process alive across all cases: the policies\' persistent state (dispatch_data, v-table pointer vectors, hash parameters, static v-table pointers of removed classes) leaks from case to case on purpose'])
